@@ -654,7 +654,9 @@ func (ex *Exec) specCall(call *ast.CallExpr, info *types.Info, env *SpecEnv, pc 
 		}
 		i := SignExtTo64(arg(0).(IntV).T, info.Types[call.Args[0]].Type)
 		ch := arg(1).(ChanV)
-		return BoolV{Eq(Select(env.st.get("ghost|"+k+".ch", SArr(SBV(64), SRef)), i), ch.Ref)}
+		tid := ex.typeID(chanElem(info.Types[call.Args[1]].Type))
+		return BoolV{And(Eq(Select(env.st.get("ghost|"+k+".ch", SArr(SBV(64), SRef)), i), ch.Ref),
+			Eq(Select(env.st.get("ghost|"+k+".ty", SArr(SBV(64), SBV(16))), i), tid))}
 	case "wirelen":
 		return IntV{env.st.get("ghost|wire.len", SBV(64))}
 	case "nsent", "nrecv":
@@ -684,15 +686,15 @@ func (ex *Exec) specCall(call *ast.CallExpr, info *types.Info, env *SpecEnv, pc 
 		t := info.Instances[id].TypeArgs.At(0)
 		return PtrV{Kind: PHeap, Ref: r, Root: t.Underlying().(*types.Pointer).Elem()}
 	case "allocated":
-		p := arg(0).(PtrV)
-		return BoolV{Select(env.st.get("alloc", SArr(SRef, SBool)), p.Ref)}
+		r := refOf(arg(0))
+		return BoolV{Select(env.st.get("alloc", SArr(SRef, SBool)), r)}
 	case "fresh":
 		// fresh(p): p was allocated during this call
-		p := arg(0).(PtrV)
+		r := refOf(arg(0))
 		if env.callSite {
-			env.freshRefs = append(env.freshRefs, p.Ref)
+			env.freshRefs = append(env.freshRefs, r)
 		}
-		return BoolV{And(Neq(p.Ref, RefNil()), Not(Select(env.old.get("alloc", SArr(SRef, SBool)), p.Ref)))}
+		return BoolV{And(Neq(r, RefNil()), Not(Select(env.old.get("alloc", SArr(SRef, SBool)), r)))}
 	}
 	// user spec function: inline its body
 	decl := ex.ctx.decls[fnObj]
@@ -1049,6 +1051,8 @@ func (ex *Exec) havocLocation(e ast.Expr, info *types.Info, pre *SpecEnv, st *St
 			if np, ok := nv.(PtrV); ok && np.Kind == PHeap {
 				// allocated-or-fresh is decided after the ensures clauses
 				ex.pendingPtrs = append(ex.pendingPtrs, np.Ref)
+			} else if nc, ok := nv.(ChanV); ok {
+				ex.pendingPtrs = append(ex.pendingPtrs, nc.Ref)
 			} else {
 				ex.wellFormed(st, nv, pc)
 			}
@@ -1089,6 +1093,20 @@ func (ex *Exec) havocLocation(e ast.Expr, info *types.Info, pre *SpecEnv, st *St
 						st.set(vn, Store(vm, m.Ref, Fresh("mod.val", SArr(kt.sort, c.sort))))
 					}
 				}
+				return
+			case "chanstate":
+				ch, ok := ex.evalSpec(x.Args[0], info, pre, pc).(ChanV)
+				if ok {
+					cl := st.get("chclosed", SArr(SRef, SBool))
+					st.set("chclosed", Store(cl, ch.Ref, Fresh("mod.closed", SBool)))
+				}
+				return
+			case "wire":
+				wl := st.get("ghost|wire.len", SBV(64))
+				nl := Fresh("mod.wire.len", SBV(64))
+				ex.assume(pc, And(BVSle(wl, nl), BVSlt(nl, BV(1<<61, 64))))
+				st.set("ghost|wire.len", nl)
+				st.set("ghost|wire.bytes", Fresh("mod.wire.bytes", SByteArr))
 				return
 			case "ghost":
 				name := constant.StringVal(info.Types[x.Args[0]].Value)
@@ -1138,4 +1156,22 @@ func havocKeepShape(v Value, hint string) Value {
 		return GoArrV{es, x.Elem}
 	}
 	return havocValue(v, hint)
+}
+
+func refOf(v Value) *Term {
+	switch x := v.(type) {
+	case PtrV:
+		if x.Kind == PHeap {
+			return x.Ref
+		}
+	case ChanV:
+		return x.Ref
+	case MapV:
+		return x.Ref
+	case SliceV:
+		if x.St == StDyn {
+			return x.ID
+		}
+	}
+	panic(fmt.Sprintf("contract: %T is not a reference", v))
 }
